@@ -173,6 +173,10 @@ def nm(v):
         return ("list", bool(v["q"]), tuple(nm(x) for x in v["c"]))
     if t == "quote":
         return ("quote", nm(v["c"][0]))
+    if t == "vec":
+        return ("vec", tuple(nm(x) for x in v["c"]))
+    if t == "map":
+        return ("map", tuple((nm(e["c"][0]), nm(e["c"][1])) for e in v["c"]))
     if t == "fun":
         return ("fun",)
     if t == "err":
@@ -197,6 +201,10 @@ def nr(v):
         return ("list", bool(v.get("q")), tuple(nr(x) for x in v["c"]))
     if t == "quote":
         return ("quote", nr(v["c"][0]))
+    if t == "vec":
+        return ("vec", tuple(nr(x) for x in v["c"]))
+    if t == "map" and "e" in v:
+        return ("map", tuple((nr(e[0]), nr(e[1])) for e in (v["e"] or [])))
     if t in ("fun", "op", "macro"):
         return ("fun",)
     if t == "err":
